@@ -72,7 +72,8 @@ def parseTy (j : Json) : Except String TyInfo := do
     | .error _ => pure .none
   pure { kind := parseKind (← getStr j "kind"), str := ← getStr j "str", qstr := ← getStr j "qstr", name := ← getStr j "name",
          pkgPath := ← getOptStr j "pkgPath", pkgName := ← getStr j "pkgName",
-         inScope := (match j.getObjVal? "inScope" with | .ok (.bool b) => b | _ => false), elem := ← getNat j "elem",
+         inScope := (match j.getObjVal? "inScope" with | .ok (.bool b) => b | _ => false),
+         hasTypeArgs := (match j.getObjVal? "hasTypeArgs" with | .ok (.bool b) => b | _ => false), elem := ← getNat j "elem",
          isStruct := ← getBool j "isStruct", isInvalid := ← getBool j "isInvalid", isSlice := ← getBool j "isSlice",
          underStr := ← getStr j "underStr", fields := fields, methods := methods, stringLookup := sl }
 
@@ -169,6 +170,7 @@ def strArr (l : List String) : Json := Json.arr (l.map Json.str).toArray
 def frontToJson (f : Facts) (r : FrontResult) : Json :=
   Json.mkObj [
     ("distinctFields", Json.bool f.env.distinctFieldsCheck),
+    ("methodsApart", Json.bool f.file.methodsApart),
     ("status", r.status), ("panicSite", r.panicSite),
     ("stderr", strArr r.stderr), ("stdout", strArr r.stdout),
     ("blocks", Json.arr (r.blocks.map fun (n, fs) =>
